@@ -281,6 +281,72 @@ Proof.
   exists t'. rewrite E. auto.
 Qed.
 
+(** ** Boots on a TPM object that served earlier boots *)
+
+(** The object a boot starts on does not depend on what the earlier boots left
+    in it: Reset() and DoNotUse_ResetNoInit() + SupportedAlgos restored give the
+    state of NewTPM(), DoNotUse_ResetNoInit() alone the same without SupportedAlgos. *)
+Lemma recycle_start prev r : BootSim.recycle H prev r = start_of r.
+Proof. destruct r; reflexivity. Qed.
+
+(** every boot of a session is the boot of its flow from [boot_start] *)
+Lemma run_boots_each bs : forall prev,
+  BootSim.run_boots ref bytes_of H prev bs = map (fun b => run_flow (boot_start (fst b)) (snd b)) bs.
+Proof.
+  induction bs as [|[r fl] rest IH]; intros prev; cbn [BootSim.run_boots map fst snd]; [reflexivity|].
+  rewrite recycle_start, IH. reflexivity.
+Qed.
+
+Lemma obs_eq_start r : obs_eq (start_of r) fresh.
+Proof. destruct r; repeat split. Qed.
+
+Lemma cmdlog_start r : cmdlog (start_of r) = [].
+Proof. destruct r; reflexivity. Qed.
+
+Lemma evlog_start r : evlog (start_of r) = [].
+Proof. destruct r; reflexivity. Qed.
+
+Lemma algos_start r : incl (algos (start_of r)) supported.
+Proof. destruct r; cbn; try apply incl_refl. intros x []. Qed.
+
+(** the history of a boot *)
+Lemma boot_history r fl :
+  exists h, no_reset h = true /\
+    s_tpm (fst (run_flow (boot_start r) fl)) = run H (start_of r) h /\
+    cmdlog (s_tpm (fst (run_flow (boot_start r) fl))) = h /\
+    (no_issues (snd (run_flow (boot_start r) fl)) -> Forall ok (results H (start_of r) h)).
+Proof.
+  destruct (run_flow_grows fl (boot_start r)) as (h & Hn & E & R). cbn [boot_start s_tpm] in E, R.
+  exists h. split; [exact Hn|]. split; [exact E|]. split; [|exact R].
+  rewrite E. destruct (log_exact H (start_of r) h Hn) as [L _]. rewrite L, cmdlog_start. reflexivity.
+Qed.
+
+(** C01_cmdlog_replay for every boot of a session: the command log of the boot,
+    executed again on the recycled object, rebuilds it exactly; re-executed on a
+    NEW TPM it gives the same PCR values and event log. *)
+Theorem cmdlog_replay_boot r fl :
+  let t := s_tpm (fst (run_flow (boot_start r) fl)) in
+  run H (start_of r) (cmdlog t) = t /\
+  pcrs (reexec H fresh (cmdlog t)) = pcrs t /\ evlog (reexec H fresh (cmdlog t)) = evlog t.
+Proof.
+  cbv zeta. destruct (boot_history r fl) as (h & Hn & E & L & _). rewrite L. split; [symmetry; exact E|].
+  destruct (reexec_vs_run H h fresh fresh Hn (same_obs_refl _)) as (A & B & _).
+  destruct (run_obs_eq H h (start_of r) fresh (obs_eq_start r)) as [(P & _ & V) _].
+  rewrite E, A, B. auto.
+Qed.
+
+Theorem cmdlog_apply_boot r fl :
+  let t := s_tpm (fst (run_flow (boot_start r) fl)) in
+  no_issues (snd (run_flow (boot_start r) fl)) ->
+  exists t', commands_apply H fresh (cmdlog t) = (t', Ok tt) /\ pcrs t' = pcrs t /\ evlog t' = evlog t.
+Proof.
+  cbv zeta. intros Hok. destruct (boot_history r fl) as (h & Hn & E & L & R). rewrite L.
+  destruct (run_obs_eq H h (start_of r) fresh (obs_eq_start r)) as [(P & _ & V) Hres].
+  rewrite Hres in R.
+  destruct (commands_apply_vs_run H h fresh fresh Hn (same_obs_refl _) (R Hok)) as (t' & Ea & A & B & _).
+  exists t'. rewrite E, P, V. auto.
+Qed.
+
 
 (** * 2. Every digest is the hash of the bytes the references denote *)
 
@@ -433,14 +499,15 @@ Proof.
   intros X. inversion X. exists raw. split; [apply raw_bytes_denotes; exact E|reflexivity].
 Qed.
 
+(** [SupportedAlgos] of the TPM is the package's list, or (after
+    DoNotUse_ResetNoInit) empty *)
 Lemma log_init_cmds t l a c :
-  algos t = supported -> In a (BootSim.log_init ref t l) -> act_cmd a c -> startup_logadd l c.
+  incl (algos t) supported -> In a (BootSim.log_init ref t l) -> act_cmd a c -> startup_logadd l c.
 Proof.
-  intros Ha Hi Hc. unfold BootSim.log_init in Hi. rewrite Ha in Hi. cbn [forallb] in Hi.
-  change (is_hash ALG_SHA1) with true in Hi. change (is_hash ALG_SHA256) with true in Hi.
-  cbn [andb map] in Hi. destruct Hi as [<-|[<-|[]]]; cbn [act_cmd] in Hc; subst c.
-  - exists ALG_SHA1. split; [cbn; auto|reflexivity].
-  - exists ALG_SHA256. split; [cbn; auto|reflexivity].
+  intros Ha Hi Hc. unfold BootSim.log_init in Hi.
+  destruct (forallb is_hash (algos t)); [|destruct Hi as [<-|[]]; destruct Hc].
+  apply in_map_iff in Hi. destruct Hi as (al & <- & Ial). cbn [act_cmd] in Hc. subst c.
+  exists al. split; [apply Ha; exact Ial|reflexivity].
 Qed.
 
 Lemma pcr0_pair_cmds al refs acts a c :
@@ -460,7 +527,7 @@ Proof.
 Qed.
 
 Lemma compile_item_cmds t it acts a c :
-  algos t = supported -> compile_item t it = Ok acts -> In a acts -> act_cmd a c -> item_cmd it c.
+  incl (algos t) supported -> compile_item t it = Ok acts -> In a acts -> act_cmd a c -> item_cmd it c.
 Proof.
   intros Ha Ec Hi Hc. destruct it as [l|l wl|l|p src ty evd|p src al|p al dg ty evd|r1 r256|];
     cbn [BootSim.compile_item] in Ec; cbn [item_cmd].
@@ -502,7 +569,7 @@ Lemma grows_algos t t' (r : Prop) : grows t t' r -> algos t' = algos t.
 Proof. intros (h & Hn & -> & _). apply algos_run. exact Hn. Qed.
 
 Lemma run_step_cmds s its c :
-  algos (s_tpm s) = supported ->
+  incl (algos (s_tpm s)) supported ->
   In c (cmdlog (s_tpm (fst (run_step s its)))) ->
   In c (cmdlog (s_tpm s)) \/ exists it, In it its /\ item_cmd it c.
 Proof.
@@ -514,7 +581,7 @@ Proof.
 Qed.
 
 Lemma run_flow_cmds fl : forall s c,
-  algos (s_tpm s) = supported ->
+  incl (algos (s_tpm s)) supported ->
   In c (cmdlog (s_tpm (fst (run_flow s fl)))) ->
   In c (cmdlog (s_tpm s)) \/ exists it, In it (concat fl) /\ item_cmd it c.
 Proof.
@@ -522,7 +589,7 @@ Proof.
   - left. exact Hi.
   - pose proof (run_step_cmds s st c Ha) as G1. pose proof (run_step_grows s st) as Gg.
     destruct (run_step s st) as [s1 r]. cbn [fst snd] in G1, Gg.
-    assert (Ha1 : algos (s_tpm s1) = supported) by (rewrite (grows_algos _ _ _ Gg); exact Ha).
+    assert (Ha1 : incl (algos (s_tpm s1)) supported) by (rewrite (grows_algos _ _ _ Gg); exact Ha).
     pose proof (IH s1 c Ha1) as G2. destruct (run_flow s1 rest) as [s2 rs]. cbn [fst] in *.
     cbn [concat]. destruct (G2 Hi) as [A|(it & Iit & Hc)].
     + destruct (G1 A) as [B|(it & Iit & Hc)]; [left; exact B|].
@@ -535,7 +602,7 @@ Qed.
 Theorem digest_is_hash_of_bytes fl c :
   In c (cmdlog (s_tpm (fst (run_flow sim0 fl)))) -> exists it, In it (concat fl) /\ item_cmd it c.
 Proof.
-  intros Hi. destruct (run_flow_cmds fl sim0 c eq_refl Hi) as [[]|A]. exact A.
+  intros Hi. destruct (run_flow_cmds fl sim0 c (incl_refl _) Hi) as [[]|A]. exact A.
 Qed.
 
 (** the same for the entries of the event log *)
@@ -547,6 +614,27 @@ Proof.
   destruct (run_flow_grows fl sim0) as (h & Hn & E & _). cbn [sim0 s_tpm] in E.
   destruct (log_exact H fresh h Hn) as [L1 L2]. rewrite E in *. rewrite L1. rewrite L2 in Hi.
   cbn [fresh cmdlog evlog app] in *. clear - Hi.
+  induction h as [|c t IH]; [destruct Hi|].
+  destruct c as [l|p' a' d'|p' a' d' ty' data'| |]; cbn [events_of In] in *; auto.
+  destruct Hi as [X|X]; [left; inversion X; reflexivity|right; auto].
+Qed.
+
+(** ... and for every boot of a session *)
+Theorem digest_is_hash_of_bytes_boot r fl c :
+  In c (cmdlog (s_tpm (fst (run_flow (boot_start r) fl)))) -> exists it, In it (concat fl) /\ item_cmd it c.
+Proof.
+  intros Hi. destruct (run_flow_cmds fl (boot_start r) c (algos_start r) Hi) as [A|A]; [|exact A].
+  cbn [boot_start s_tpm] in A. rewrite cmdlog_start in A. destruct A.
+Qed.
+
+Theorem evlog_digest_is_hash_of_bytes_boot r fl p a dg ty evd :
+  In (EV p a dg ty evd) (evlog (s_tpm (fst (run_flow (boot_start r) fl)))) ->
+  exists it, In it (concat fl) /\ item_cmd it (LogAdd p a dg ty evd).
+Proof.
+  intros Hi. apply (digest_is_hash_of_bytes_boot r).
+  destruct (boot_history r fl) as (h & Hn & E & L & _). rewrite L. rewrite E in Hi.
+  destruct (log_exact H (start_of r) h Hn) as [_ L2]. rewrite L2, evlog_start in Hi.
+  cbn [app] in Hi. clear - Hi.
   induction h as [|c t IH]; [destruct Hi|].
   destruct c as [l|p' a' d'|p' a' d' ty' data'| |]; cbn [events_of In] in *; auto.
   destruct Hi as [X|X]; [left; inversion X; reflexivity|right; auto].
@@ -1113,6 +1201,499 @@ Theorem tpm_replay_eq fl l logged a :
   exists v, get (pcrs (s_tpm (fst (run_flow sim0 fl)))) 0 a = Ok v /\
             EL.tpm_replay H (to_entries (evlog (s_tpm (fst (run_flow sim0 fl))))) 0 a l = Ok v.
 Proof. intros Hw. apply Inv_tpm_replay with (b := logged). apply wf_flow_Inv. exact Hw. Qed.
+
+(** ** The in-simulator routine on every flow in which every extend is logged *)
+
+(** The invariant without the position of the informational entries: every
+    bank is the TCG fold, from the startup value, of the digests of the
+    measurement entries (anything but EV_NO_ACTION) logged for it -- wherever
+    the EV_NO_ACTION entries are, however many, whatever they carry. *)
+Definition Inv2 (l : Z) (t : state) : Prop :=
+  wf t /\ initialized t = true /\
+  forall p a, (p = 0 \/ p = 1) -> is_supported a = true ->
+    get (pcrs t) p a =
+    Ok (EL.tcg_fold H a (EL.meas_digests (to_parsed (evlog t)) p a) (init_val a (Z.to_nat p) l)).
+
+Lemma Inv_Inv2 l b t : Inv l b t -> Inv2 l t.
+Proof.
+  intros (Hw & Hi & mev & Em & _ & Hv). split; [exact Hw|]. split; [exact Hi|].
+  intros p a Hp Ha. rewrite Em, to_parsed_app, meas_digests_app, meas_digests_sev. cbn [app].
+  apply Hv; assumption.
+Qed.
+
+Lemma Inv2_same_obs l t t' : same_obs t t' -> Inv2 l t -> Inv2 l t'.
+Proof.
+  intros (Hp & He & _) (Hw & Hi & Hv). split; [|split].
+  - eapply wf_same_pcrs; eauto.
+  - unfold initialized in *. rewrite <- Hp. exact Hi.
+  - rewrite <- He, <- Hp. exact Hv.
+Qed.
+
+Lemma Inv2_fail l t c :
+  Inv2 l t -> snd (step H t c) <> Ok tt -> Inv2 l (fst (step H t c)).
+Proof.
+  intros HI Hne. destruct (step H t c) as [t' r] eqn:E. cbn [fst snd] in *.
+  destruct (step_not_ok H t c t' r E Hne) as [_ ->].
+  eapply Inv2_same_obs; [apply same_obs_sym, same_obs_log_cmd|exact HI].
+Qed.
+
+(** an informational entry: no bank changes, no measurement entry is added *)
+Lemma Inv2_info_log l t p a d evd :
+  Inv2 l t -> Inv2 l (fst (step H t (LogAdd p a d EV_NO_ACTION evd))).
+Proof.
+  intros (Hw & Hi & Hv). rewrite step_logadd. cbn [fst]. split; [|split].
+  - eapply wf_same_pcrs; [|exact Hw]. reflexivity.
+  - exact Hi.
+  - intros p' a' Hp' Ha'. cbn [log_event log_cmd evlog pcrs].
+    rewrite to_parsed_app, meas_digests_app, meas_digests_one.
+    change (EV_NO_ACTION =? EV_NO_ACTION) with true. cbn [negb]. rewrite andb_false_r, app_nil_r.
+    apply Hv; assumption.
+Qed.
+
+(** an extend that succeeds, followed by the log-add of the same digest *)
+Lemma Inv2_ext_log l t p a d ty evd t1 :
+  Inv2 l t -> step H t (Extend p a d) = (t1, Ok tt) -> ty <> EV_NO_ACTION ->
+  Inv2 l (fst (step H t1 (LogAdd p a d ty evd))).
+Proof.
+  intros (Hw & Hi & Hv) E Hty.
+  assert (Hw1 : wf t1).
+  { replace t1 with (fst (step H t (Extend p a d))) by (rewrite E; reflexivity). apply wf_step; assumption. }
+  assert (Hi1 : initialized t1 = true).
+  { replace t1 with (fst (step H t (Extend p a d))) by (rewrite E; reflexivity).
+    rewrite initialized_step by reflexivity. rewrite Hi. reflexivity. }
+  assert (Hpa : (p = 0 \/ p = 1) /\ is_supported a = true).
+  { pose proof (step_extend_ok H _ _ _ _ _ E) as (old & _ & _ & Hh & _).
+    pose proof (extend_outcome H t p a d Hw (is_hash_range a Hh)) as Ho. rewrite Hi in Ho. cbn [andb] in Ho.
+    rewrite E in Ho. cbn [snd] in Ho.
+    destruct ((0 <=? p) && (p <? 2) && is_supported a) eqn:C; [|destruct Ho as [e Ho]; discriminate].
+    apply andb_true_iff in C. destruct C as [C1 C2]. apply andb_true_iff in C1. destruct C1 as [C0 C1].
+    split; [lia|exact C2]. }
+  destruct Hpa as [Hp Ha].
+  destruct (extend_frame H _ _ _ _ _ E) as (old & Hold & Hnew & Hframe & _ & Hev).
+  rewrite step_logadd. cbn [fst]. split; [|split].
+  - eapply wf_same_pcrs; [|exact Hw1]. reflexivity.
+  - exact Hi1.
+  - intros p' a' Hp' Ha'. cbn [log_event log_cmd evlog pcrs].
+    rewrite Hev, to_parsed_app, meas_digests_app, meas_digests_one.
+    apply Z.eqb_neq in Hty. rewrite Hty. cbn [negb]. rewrite andb_true_r.
+    destruct ((p =? p') && (a =? a')) eqn:C.
+    + apply andb_true_iff in C. destruct C as [C1 C2]. apply Z.eqb_eq in C1, C2. subst p' a'.
+      rewrite tcg_fold_snoc, Hnew. rewrite (Hv p a Hp Ha) in Hold. inversion Hold. reflexivity.
+    + rewrite app_nil_r, Hframe; [apply Hv; assumption|].
+      intros X. inversion X; subst. rewrite !Z.eqb_refl in C. discriminate.
+Qed.
+
+Lemma event_loop_Inv2 l algs : forall t p msg ty evd,
+  Inv2 l t -> ty <> EV_NO_ACTION -> Inv2 l (fst (event_loop t p msg ty evd algs)).
+Proof.
+  induction algs as [|a rest IH]; intros t p msg ty evd HI Hty; cbn [BootSim.event_loop].
+  - exact HI.
+  - destruct (step H t (Extend p a (H a msg))) as [t1 r1] eqn:E1.
+    assert (F : r1 <> Ok tt -> Inv2 l t1).
+    { intros Hne. replace t1 with (fst (step H t (Extend p a (H a msg)))) by (rewrite E1; reflexivity).
+      apply Inv2_fail; [exact HI|]. rewrite E1. exact Hne. }
+    destruct r1 as [[]|e| |]; try (cbn [fst]; apply F; discriminate).
+    pose proof (Inv2_ext_log l t p a (H a msg) ty evd t1 HI E1 Hty) as HI2.
+    destruct (step H t1 (LogAdd p a (H a msg) ty evd)) as [t2 r2] eqn:E2. cbn [fst] in HI2.
+    assert (r2 = Ok tt) as -> by (rewrite step_logadd in E2; inversion E2; reflexivity).
+    apply IH; assumption.
+Qed.
+
+(** the actions of LogInit: informational entries (or a Panic action), whatever
+    SupportedAlgos holds *)
+Definition info_act (a : tact) : Prop :=
+  match a with
+  | ALogAdd _ _ _ ty _ => ty = EV_NO_ACTION
+  | APanic => True
+  | _ => False
+  end.
+
+Lemma log_init_info t l : Forall info_act (BootSim.log_init ref t l).
+Proof.
+  unfold BootSim.log_init. destruct (forallb is_hash (algos t)); [|repeat constructor].
+  apply Forall_forall. intros a Hi. apply in_map_iff in Hi. destruct Hi as (al & <- & _). reflexivity.
+Qed.
+
+Lemma info_acts_Inv2 l acts : Forall info_act acts -> forall s,
+  Inv2 l (s_tpm s) -> Inv2 l (s_tpm (fst (run_acts s acts))).
+Proof.
+  induction 1 as [|a r Ha Hr IH]; intros s HI; cbn [BootSim.run_acts]; [exact HI|].
+  destruct a as [l0|p src ty evd|p src al|p al d ty evd|]; cbn [info_act] in Ha; try contradiction.
+  - subst ty. cbn [BootSim.apply_act].
+    pose proof (Inv2_info_log l (s_tpm s) p al d evd HI) as G.
+    destruct (step H (s_tpm s) (LogAdd p al d EV_NO_ACTION evd)) as [t1 r1]. cbn [fst] in G.
+    specialize (IH (BootSim.with_tpm ref s t1) G). destruct (run_acts (BootSim.with_tpm ref s t1) r). exact IH.
+  - cbn [BootSim.apply_act]. specialize (IH s HI). destruct (run_acts s r). exact IH.
+Qed.
+
+Lemma pcr0_pair_Inv2 l a refs acts s :
+  is_supported a = true -> pcr0_pair a refs = Ok acts -> Inv2 l (s_tpm s) ->
+  Inv2 l (s_tpm (fst (run_acts s acts))).
+Proof.
+  intros Ha Ec HI. unfold BootSim.pcr0_pair in Ec. destruct refs as [rs|].
+  - destruct (converted (mkData rs (Some a))) as [dg|e| |] eqn:Ecv; cbn [bind] in Ec; try discriminate.
+    inversion Ec; subst acts. clear Ec.
+    cbn [BootSim.run_acts BootSim.apply_act]. rewrite Ecv.
+    destruct HI as (Hw & Hi & Hrest).
+    pose proof (extend_outcome H (s_tpm s) 0 a dg Hw) as Ho.
+    rewrite Hi, Ha in Ho. cbn [andb Z.leb Z.ltb Z.compare] in Ho.
+    assert (Hr : 0 <= a < 65536) by (destruct (is_supported_cases a Ha) as [-> | ->]; cbv; split; congruence).
+    specialize (Ho Hr).
+    destruct (step H (s_tpm s) (Extend 0 a dg)) as [t1 r1] eqn:E1. cbn [snd] in Ho. subst r1.
+    cbn [add_meas with_tpm s_tpm].
+    pose proof (Inv2_ext_log l (s_tpm s) 0 a dg EV_S_CRTM_CONTENTS (Some (pcr0_data_descr a)) t1
+                  (conj Hw (conj Hi Hrest)) E1) as HI2.
+    destruct (step H t1 (LogAdd 0 a dg EV_S_CRTM_CONTENTS (Some (pcr0_data_descr a)))) as [t2 r2].
+    cbn [fst snd s_tpm with_tpm] in *. apply HI2. discriminate.
+  - inversion Ec; subst acts. cbn [BootSim.run_acts BootSim.apply_act fst]. exact HI.
+Qed.
+
+(** Items after the startup.  Besides the measurements of [meas_item]:
+    LogInit at ANY locality and position (the event log may be set up later than
+    the TPM), a further InitTPM with log (the init is refused, the entries are
+    written), bare TPMEventLogAdd of an EV_NO_ACTION entry. *)
+Definition body_item (it : item) : Prop :=
+  match it with
+  | ILogInit _ => True
+  | IInitTPM _ _ => True
+  | ILogAdd _ _ _ ty _ => ty = EV_NO_ACTION
+  | _ => meas_item it
+  end.
+
+Lemma body_item_readable it : body_item it -> readable_item it.
+Proof. destruct it; cbn; auto. Qed.
+
+Lemma body_item_Inv2 l t it acts s :
+  body_item it -> compile_item t it = Ok acts -> Inv2 l (s_tpm s) ->
+  Inv2 l (s_tpm (fst (run_acts s acts))).
+Proof.
+  intros Hm Ec HI.
+  assert (Reinit : forall l0 s0, Inv2 l (s_tpm s0) -> Inv2 l (s_tpm (fst (apply_act s0 (AInit l0))))).
+  { intros l0 s0 HI0. cbn [BootSim.apply_act].
+    pose proof (Inv2_fail l (s_tpm s0) (Startup l0) HI0) as F.
+    rewrite (startup_outcome H) in F. destruct HI0 as (_ & Hi & _). rewrite Hi in F.
+    destruct (step H (s_tpm s0) (Startup l0)) as [t1 r1]. cbn [fst with_tpm s_tpm] in *. apply F. discriminate. }
+  destruct it as [l0|l0 wl|l0|p src ty evd|p src al|p al dg ty evd|r1 r256|];
+    cbn [body_item meas_item] in Hm; try contradiction; cbn [BootSim.compile_item] in Ec.
+  - inversion Ec; subst acts. cbn [BootSim.run_acts]. specialize (Reinit l0 s HI).
+    destruct (apply_act s (AInit l0)). exact Reinit.
+  - inversion Ec; subst acts. cbn [BootSim.run_acts]. specialize (Reinit l0 s HI).
+    destruct (apply_act s (AInit l0)) as [s1 r1]. cbn [fst] in Reinit.
+    pose proof (info_acts_Inv2 l (if wl then BootSim.log_init ref t l0 else [])) as G.
+    assert (Fi : Forall info_act (if wl then BootSim.log_init ref t l0 else []))
+      by (destruct wl; [apply log_init_info|constructor]).
+    specialize (G Fi s1 Reinit). destruct (run_acts s1 (if wl then BootSim.log_init ref t l0 else [])). exact G.
+  - inversion Ec; subst acts. apply info_acts_Inv2; [apply log_init_info|exact HI].
+  - inversion Ec; subst acts. cbn [BootSim.run_acts BootSim.apply_act].
+    destruct src as [d| |]; try (cbn [fst]; exact HI).
+    destruct (converted d) as [msg|e| |]; try (cbn [fst]; exact HI).
+    pose proof (event_loop_Inv2 l supported (s_tpm s) p msg ty evd HI Hm) as G.
+    destruct (event_loop (s_tpm s) p msg ty evd supported) as [t1 r]. cbn [fst] in G.
+    destruct r as [[]|e| |]; cbn [fst add_meas with_tpm s_tpm]; exact G.
+  - inversion Ec; subst acts. apply info_acts_Inv2; [|exact HI]. repeat constructor. exact Hm.
+  - destruct Hm as [R1 R2].
+    destruct (pcr0_pair ALG_SHA1 r1) as [x|e| |] eqn:E1; cbn [bind] in Ec; try discriminate.
+    destruct (pcr0_pair ALG_SHA256 r256) as [y|e| |] eqn:E2; cbn [bind] in Ec; try discriminate.
+    inversion Ec; subst acts. rewrite run_acts_app.
+    apply (pcr0_pair_Inv2 l ALG_SHA256 r256 y _ eq_refl E2).
+    apply (pcr0_pair_Inv2 l ALG_SHA1 r1 x _ eq_refl E1). exact HI.
+  - inversion Ec; subst acts. cbn [BootSim.run_acts BootSim.apply_act fst]. exact HI.
+Qed.
+
+(** a TPM2_PCR_Extend-style measurement: TPMExtend directly followed by the
+    TPMEventLogAdd of the same bytes (of any length: the in-simulator routine
+    folds whatever was logged) *)
+Lemma pair_Inv2 l p d a dg ty evd s :
+  (p = 0 \/ p = 1) -> is_supported a = true ->
+  converted d = Ok dg -> ty <> EV_NO_ACTION ->
+  Inv2 l (s_tpm s) ->
+  Inv2 l (s_tpm (fst (run_acts s [AExtend p (DS d) a; ALogAdd p a dg ty evd]))).
+Proof.
+  intros Hp Ha Ecv Hty HI.
+  cbn [BootSim.run_acts BootSim.apply_act]. rewrite Ecv.
+  destruct HI as (Hw & Hi & Hrest).
+  pose proof (extend_outcome H (s_tpm s) p a dg Hw) as Ho.
+  assert (C : initialized (s_tpm s) && (0 <=? p) && (p <? 2) && is_supported a = true)
+    by (rewrite Hi, Ha; destruct Hp as [-> | ->]; reflexivity).
+  rewrite C in Ho. clear C.
+  assert (Hr : 0 <= a < 65536) by (destruct (is_supported_cases a Ha) as [-> | ->]; cbv; split; congruence).
+  specialize (Ho Hr).
+  destruct (step H (s_tpm s) (Extend p a dg)) as [t1 r1] eqn:E1. cbn [snd] in Ho. subst r1.
+  cbn [add_meas with_tpm s_tpm].
+  pose proof (Inv2_ext_log l (s_tpm s) p a dg ty evd t1 (conj Hw (conj Hi Hrest)) E1 Hty) as HI2.
+  destruct (step H t1 (LogAdd p a dg ty evd)) as [t2 r2].
+  cbn [fst snd s_tpm with_tpm] in *. exact HI2.
+Qed.
+
+Inductive logged_body : list item -> Prop :=
+| LB_nil : logged_body []
+| LB_item it r : body_item it -> logged_body r -> logged_body (it :: r)
+| LB_pair p d a dg ty evd r :
+    (p = 0 \/ p = 1) -> is_supported a = true ->
+    converted d = Ok dg -> ty <> EV_NO_ACTION ->
+    logged_body r ->
+    logged_body (IExtend p (DS d) a :: ILogAdd p a dg ty evd :: r).
+
+Lemma logged_body_readable body : logged_body body -> Forall readable_item body.
+Proof.
+  induction 1; repeat constructor; try assumption. apply body_item_readable. assumption.
+Qed.
+
+Lemma logged_body_Inv2 l t body : logged_body body -> forall acts s,
+  compile_step t body = Ok acts -> Inv2 l (s_tpm s) ->
+  Inv2 l (s_tpm (fst (run_acts s acts))).
+Proof.
+  induction 1 as [|it r Hit Hr IH|p d a dg ty evd r Hp Ha Ecv Hty Hr IH]; intros acts s Ec HI.
+  - cbn [BootSim.compile_step] in Ec. inversion Ec; subst acts. exact HI.
+  - cbn [BootSim.compile_step] in Ec.
+    destruct (compile_item t it) as [x|e| |] eqn:E1; cbn [bind] in Ec; try discriminate.
+    destruct (compile_step t r) as [y|e| |] eqn:E2; cbn [bind] in Ec; try discriminate.
+    inversion Ec; subst acts. rewrite run_acts_app. apply (IH y); [reflexivity|].
+    eapply body_item_Inv2; eauto.
+  - cbn [BootSim.compile_step BootSim.compile_item bind] in Ec.
+    destruct (compile_step t r) as [y|e| |] eqn:E2; cbn [bind] in Ec; try discriminate.
+    inversion Ec; subst acts. cbn [app].
+    change (AExtend p (DS d) a :: ALogAdd p a dg ty evd :: y)
+      with ([AExtend p (DS d) a; ALogAdd p a dg ty evd] ++ y).
+    rewrite run_acts_app. apply (IH y); [reflexivity|].
+    apply pair_Inv2; assumption.
+Qed.
+
+(** *** Before the startup *)
+
+(** not started, and nothing but informational entries in the log *)
+Definition Pre (t : state) : Prop :=
+  wf t /\ initialized t = false /\
+  forall p a, EL.meas_digests (to_parsed (evlog t)) p a = [].
+
+Lemma Pre_start r : Pre (start_of r).
+Proof. destruct r; (split; [left; reflexivity|]); split; reflexivity. Qed.
+
+Lemma Pre_same_obs t t' : same_obs t t' -> Pre t -> Pre t'.
+Proof.
+  intros (Hp & He & _) (Hw & Hi & Hv). split; [|split].
+  - eapply wf_same_pcrs; eauto.
+  - unfold initialized in *. rewrite <- Hp. exact Hi.
+  - rewrite <- He. exact Hv.
+Qed.
+
+Lemma Pre_fail t c : Pre t -> snd (step H t c) <> Ok tt -> Pre (fst (step H t c)).
+Proof.
+  intros HI Hne. destruct (step H t c) as [t' r] eqn:E. cbn [fst snd] in *.
+  destruct (step_not_ok H t c t' r E Hne) as [_ ->].
+  eapply Pre_same_obs; [apply same_obs_sym, same_obs_log_cmd|exact HI].
+Qed.
+
+(** a TPM that was not started refuses every extend *)
+Lemma extend_not_started t p a d : initialized t = false -> snd (step H t (Extend p a d)) <> Ok tt.
+Proof.
+  intros Hi E. destruct (step H t (Extend p a d)) as [t1 r1] eqn:Es. cbn [snd] in E. subst r1.
+  destruct (step_extend_ok H _ _ _ _ _ Es) as (old & Hg & _).
+  unfold initialized in Hi. destruct (pcrs t); [discriminate Hg|discriminate Hi].
+Qed.
+
+Lemma Pre_info_log t p a d evd : Pre t -> Pre (fst (step H t (LogAdd p a d EV_NO_ACTION evd))).
+Proof.
+  intros (Hw & Hi & Hv). rewrite step_logadd. cbn [fst]. split; [|split].
+  - eapply wf_same_pcrs; [|exact Hw]. reflexivity.
+  - exact Hi.
+  - intros p' a'. cbn [log_event log_cmd evlog].
+    rewrite to_parsed_app, meas_digests_app, meas_digests_one, Hv.
+    change (EV_NO_ACTION =? EV_NO_ACTION) with true. cbn [negb]. rewrite andb_false_r. reflexivity.
+Qed.
+
+Lemma info_acts_Pre acts : Forall info_act acts -> forall s,
+  Pre (s_tpm s) -> Pre (s_tpm (fst (run_acts s acts))).
+Proof.
+  induction 1 as [|a r Ha Hr IH]; intros s HI; cbn [BootSim.run_acts]; [exact HI|].
+  destruct a as [l0|p src ty evd|p src al|p al d ty evd|]; cbn [info_act] in Ha; try contradiction.
+  - subst ty. cbn [BootSim.apply_act].
+    pose proof (Pre_info_log (s_tpm s) p al d evd HI) as G.
+    destruct (step H (s_tpm s) (LogAdd p al d EV_NO_ACTION evd)) as [t1 r1]. cbn [fst] in G.
+    specialize (IH (BootSim.with_tpm ref s t1) G). destruct (run_acts (BootSim.with_tpm ref s t1) r). exact IH.
+  - cbn [BootSim.apply_act]. specialize (IH s HI). destruct (run_acts s r). exact IH.
+Qed.
+
+(** Items before the startup: LogInit (the log may also be set up EARLIER than
+    the TPM), informational entries, Panic steps, and measurements (TPMEvent,
+    bare TPMExtend), whose extends the TPM refuses *)
+Definition pre_item (it : item) : Prop :=
+  match it with
+  | ILogInit _ => True
+  | ILogAdd _ _ _ ty _ => ty = EV_NO_ACTION
+  | IEvent _ _ _ _ => True
+  | IExtend _ _ _ => True
+  | IPanic => True
+  | _ => False
+  end.
+
+Lemma pre_item_readable it : pre_item it -> readable_item it.
+Proof. destruct it; cbn; auto; intros []. Qed.
+
+Lemma pre_item_Pre t it acts s :
+  pre_item it -> compile_item t it = Ok acts -> Pre (s_tpm s) -> Pre (s_tpm (fst (run_acts s acts))).
+Proof.
+  intros Hm Ec HI.
+  destruct it as [l0|l0 wl|l0|p src ty evd|p src al|p al dg ty evd|r1 r256|];
+    cbn [pre_item] in Hm; try contradiction; cbn [BootSim.compile_item] in Ec; inversion Ec; subst acts.
+  - apply info_acts_Pre; [apply log_init_info|exact HI].
+  - cbn [BootSim.run_acts BootSim.apply_act].
+    destruct src as [d| |]; try (cbn [fst]; exact HI).
+    destruct (converted d) as [msg|e| |]; try (cbn [fst]; exact HI).
+    cbn [supported BootSim.event_loop].
+    pose proof (Pre_fail (s_tpm s) (Extend p ALG_SHA1 (H ALG_SHA1 msg)) HI) as F.
+    pose proof (extend_not_started (s_tpm s) p ALG_SHA1 (H ALG_SHA1 msg)) as N.
+    destruct HI as (_ & Hi & _). specialize (N Hi). specialize (F N).
+    destruct (step H (s_tpm s) (Extend p ALG_SHA1 (H ALG_SHA1 msg))) as [t1 r1]. cbn [fst snd] in *.
+    destruct r1 as [[]|e| |]; [exfalso; apply N; reflexivity| | |]; cbn [fst with_tpm s_tpm]; exact F.
+  - cbn [BootSim.run_acts BootSim.apply_act].
+    destruct src as [d| |]; try (cbn [fst]; exact HI).
+    destruct (converted d) as [msg|e| |]; try (cbn [fst]; exact HI).
+    pose proof (Pre_fail (s_tpm s) (Extend p al msg) HI) as F.
+    pose proof (extend_not_started (s_tpm s) p al msg) as N.
+    destruct HI as (_ & Hi & _). specialize (N Hi). specialize (F N).
+    destruct (step H (s_tpm s) (Extend p al msg)) as [t1 r1]. cbn [fst snd] in *.
+    destruct r1 as [[]|e| |]; [exfalso; apply N; reflexivity| | |]; cbn [fst with_tpm s_tpm]; exact F.
+  - apply info_acts_Pre; [|exact HI]. repeat constructor. exact Hm.
+  - cbn [BootSim.run_acts BootSim.apply_act fst]. exact HI.
+Qed.
+
+Lemma pre_items_Pre t pre : Forall pre_item pre -> forall acts s,
+  compile_step t pre = Ok acts -> Pre (s_tpm s) -> Pre (s_tpm (fst (run_acts s acts))).
+Proof.
+  induction 1 as [|it r Hit Hr IH]; intros acts s Ec HI; cbn [BootSim.compile_step] in Ec.
+  - inversion Ec; subst acts. exact HI.
+  - destruct (compile_item t it) as [x|e| |] eqn:E1; cbn [bind] in Ec; try discriminate.
+    destruct (compile_step t r) as [y|e| |] eqn:E2; cbn [bind] in Ec; try discriminate.
+    inversion Ec; subst acts. rewrite run_acts_app. apply (IH y); [reflexivity|].
+    eapply pre_item_Pre; eauto.
+Qed.
+
+(** *** The startup: TPMInit(l) / InitTPM(l, withLog) on a TPM that was not started *)
+
+Definition start_item (l : Z) (it : item) : Prop :=
+  match it with
+  | IInit l0 => l0 = l
+  | IInitTPM l0 _ => l0 = l
+  | _ => False
+  end.
+
+Lemma Pre_startup l s :
+  Pre (s_tpm s) -> Inv2 l (s_tpm (fst (apply_act s (AInit l)))).
+Proof.
+  intros (Hw & Hi & Hv). cbn [BootSim.apply_act].
+  assert (W : wf (fst (step H (s_tpm s) (Startup l)))) by (apply wf_step; assumption).
+  rewrite step_startup in *. rewrite Hi in *. cbn [fst with_tpm s_tpm] in *.
+  split; [exact W|]. split; [reflexivity|].
+  intros p a Hp Ha. cbn [set_pcrs log_cmd pcrs evlog]. rewrite Hv.
+  destruct Hp as [-> | ->]; destruct (is_supported_cases a Ha) as [-> | ->]; reflexivity.
+Qed.
+
+Lemma start_item_Inv2 l t it acts s :
+  start_item l it -> compile_item t it = Ok acts -> Pre (s_tpm s) ->
+  Inv2 l (s_tpm (fst (run_acts s acts))).
+Proof.
+  intros Hs Ec HP.
+  destruct it as [l0|l0 wl|l0|p src ty evd|p src al|p al dg ty evd|r1 r256|];
+    cbn [start_item] in Hs; try contradiction; subst l0; cbn [BootSim.compile_item] in Ec;
+    inversion Ec; subst acts; cbn [BootSim.run_acts]; pose proof (Pre_startup l s HP) as G;
+    destruct (apply_act s (AInit l)) as [s1 r1]; cbn [fst] in G.
+  - exact G.
+  - pose proof (info_acts_Inv2 l (if wl then BootSim.log_init ref t l else [])) as G2.
+    assert (Fi : Forall info_act (if wl then BootSim.log_init ref t l else []))
+      by (destruct wl; [apply log_init_info|constructor]).
+    specialize (G2 Fi s1 G). destruct (run_acts s1 (if wl then BootSim.log_init ref t l else [])). exact G2.
+Qed.
+
+(** *** The class: every extend is logged *)
+
+(** The items of the flow, in order and however grouped in steps: anything that
+    cannot touch a PCR while the TPM is not started ([pre_item]), the startup at
+    locality [l], then measurements that extend and log the same digest and
+    informational entries in any order ([logged_body]).  Every [wf_flow] is one
+    ([wf_flow_logged]); so is InitTPM(l, false); Measure; LogInit(l); Measure. *)
+Definition logged_flow (l : Z) (fl : list (list item)) : Prop :=
+  exists pre st body, concat fl = pre ++ st :: body /\
+    Forall pre_item pre /\ start_item l st /\ logged_body body.
+
+Lemma meas_body_logged body : meas_body body -> logged_body body.
+Proof.
+  induction 1 as [|it r Hit Hr IH|p d a dg ty evd r Hp Ha Ecv Hl Hty Hr IH].
+  - constructor.
+  - apply LB_item; [|exact IH]. destruct it; cbn in *; auto; contradiction.
+  - apply LB_pair; assumption.
+Qed.
+
+Lemma wf_flow_logged l b fl : wf_flow l b fl -> logged_flow l fl.
+Proof.
+  intros (pre & body & Ec & Hf & Hm). apply meas_body_logged in Hm. unfold logged_flow. rewrite Ec.
+  destruct Hf.
+  - exists [], (IInitTPM l true), body. repeat split; auto.
+  - exists [], (IInitTPM l false), (ILogInit l :: body). repeat split; auto. apply LB_item; [exact I|exact Hm].
+  - exists [], (IInit l), (ILogInit l :: body). repeat split; auto. apply LB_item; [exact I|exact Hm].
+  - exists [ILogInit l], (IInitTPM l false), body. repeat split; auto. repeat constructor.
+  - exists [ILogInit l], (IInit l), body. repeat split; auto. repeat constructor.
+  - exists [], (IInitTPM l false), body. repeat split; auto.
+  - exists [], (IInit l), body. repeat split; auto.
+Qed.
+
+Lemma logged_flow_Inv2 r l fl :
+  logged_flow l fl -> Inv2 l (s_tpm (fst (run_flow (boot_start r) fl))).
+Proof.
+  intros (pre & st & body & Ec & Hpre & Hst & Hb).
+  assert (Hr : Forall readable_item (concat fl)).
+  { rewrite Ec. apply Forall_app. split.
+    - eapply Forall_impl; [|exact Hpre]. apply pre_item_readable.
+    - constructor; [destruct st; cbn in Hst; try contradiction; exact I|].
+      apply logged_body_readable. exact Hb. }
+  destruct (run_flow_flat fl (boot_start r) Hr) as (acts & Ea & ->). cbn [boot_start s_tpm] in Ea.
+  rewrite Ec in Ea. change (st :: body) with ([st] ++ body) in Ea. rewrite !compile_step_app in Ea.
+  destruct (compile_step (start_of r) pre) as [x|e| |] eqn:E1; cbn [bind] in Ea; try discriminate.
+  cbn [BootSim.compile_step] in Ea.
+  destruct (compile_item (start_of r) st) as [y|e| |] eqn:E2; cbn [bind] in Ea; try discriminate.
+  destruct (compile_step (start_of r) body) as [z|e| |] eqn:E3; cbn [bind] in Ea; try discriminate.
+  inversion Ea; subst acts. rewrite app_nil_r, !run_acts_app.
+  eapply logged_body_Inv2; [exact Hb|exact E3|].
+  eapply start_item_Inv2; [exact Hst|exact E2|].
+  eapply pre_items_Pre; [exact Hpre|exact E1|]. cbn [boot_start s_tpm]. apply Pre_start.
+Qed.
+
+Lemma Inv2_tpm_replay l t a :
+  Inv2 l t -> is_supported a = true ->
+  exists v, get (pcrs t) 0 a = Ok v /\ EL.tpm_replay H (to_entries (evlog t)) 0 a l = Ok v.
+Proof.
+  intros (_ & _ & Hv) Ha.
+  pose proof (hash_size_supported a Ha) as Hs.
+  eexists. split; [apply Hv; [left; reflexivity|exact Ha]|].
+  unfold EL.tpm_replay. rewrite Hs. cbn [Z.eqb negb].
+  rewrite ELP.zeros_loc_ok by (destruct (is_supported_cases a Ha) as [-> | ->]; cbv; reflexivity).
+  cbn [bind]. rewrite ELP.tpm_replay_loop_fold.
+  rewrite (ELP.from_parsed_meas _ _ 0 a (from_parsed_to_parsed (evlog t))).
+  change (Z.to_nat 0) with O. rewrite (init_val_seed a O l Ha). reflexivity.
+Qed.
+
+(** tpm.EventLog.Replay(0, a, startup locality) = PCR0, both banks, on every
+    boot of a session, for every flow in which every extend is logged *)
+Theorem tpm_replay_logged r fl l a :
+  logged_flow l fl -> is_supported a = true ->
+  exists v, get (pcrs (s_tpm (fst (run_flow (boot_start r) fl)))) 0 a = Ok v /\
+            EL.tpm_replay H (to_entries (evlog (s_tpm (fst (run_flow (boot_start r) fl))))) 0 a l = Ok v.
+Proof. intros Hw. apply Inv2_tpm_replay. apply logged_flow_Inv2. exact Hw. Qed.
+
+(** tpmeventlog.Replay and the well-formed flows on every boot whose TPM object
+    has its SupportedAlgos (LogInit writes nothing on an object left by
+    DoNotUse_ResetNoInit alone) *)
+Theorem evlog_replay_boot r fl l logged p a :
+  r <> RResetNoInit ->
+  wf_flow l logged fl ->
+  logged = true \/ (logged = false /\ l = 0) ->
+  (p = 0 \/ p = 1) -> is_supported a = true ->
+  exists v, get (pcrs (s_tpm (fst (run_flow (boot_start r) fl)))) p a = Ok v /\
+            EL.replay H (to_parsed (evlog (s_tpm (fst (run_flow (boot_start r) fl))))) p a = Ok v.
+Proof.
+  intros Hr. replace (boot_start r) with (@sim0 ref) by (destruct r; try reflexivity; contradiction).
+  apply evlog_replay.
+Qed.
 
 End Replay.
 
